@@ -41,6 +41,8 @@ class Fn:
 
 def classify(name, dem):
     """-> Fn (without row) or None"""
+    while "> >" in dem:
+        dem = dem.replace("> >", ">>")
     s = Sig(dem)
     if not s.ok:
         return None
